@@ -373,6 +373,21 @@ func TestC13Items(t *testing.T) {
 		{Kind: model.U1, Children: []int{model.MaxLen, 1}}, {Kind: model.A, Children: []int{model.MaxLen - 1, 3}},
 		{Kind: model.U4, Children: []int{model.MaxLen / 4, 5}},
 	}
+	// every border size also as a CHILD of a list (alone, and between small siblings): the decoder reads the length
+	// field of a child on a path of its own
+	for _, kind := range model.AllKinds {
+		if kind == model.L {
+			continue
+		}
+		w := model.Width(kind)
+		for _, border := range []int{255, 256, 65535, 65536} {
+			for d := -2; d <= 1; d++ {
+				if n := border/w + d; n >= 0 {
+					nested = append(nested, c13NestedCase{Kind: kind, Children: []int{n}}, c13NestedCase{Kind: kind, Children: []int{3, n, 2}})
+				}
+			}
+		}
+	}
 	for _, c := range nested {
 		seq++
 		if seq%nshards == shard {
